@@ -540,6 +540,15 @@ func (x *Exec) binop(bc *blockCtx, in ssa.Instruction, op token.Token, av, cv *V
 		return &Val{Typ: rt, T: eq}
 	}
 	a, c := x.asTerm(av), x.asTerm(cv)
+	if _, isTP := ot.(*types.TypeParam); isTP {
+		// arithmetic on a type parameter: an uninterpreted operation of that sort
+		so := x.so.SortOf(ot)
+		rs := x.so.SortOf(rt)
+		name := "tpop_" + smt.Sanitize(op.String()) + "_" + smt.Sanitize(so)
+		x.declareUF(name, []string{so, so}, rs)
+		x.note("operators on values of a type parameter are uninterpreted functions")
+		return &Val{Typ: rt, T: x.b.App(name, rs, a, c)}
+	}
 	if isFloat(ot) {
 		switch op {
 		case token.ADD, token.SUB, token.MUL, token.QUO:
@@ -909,6 +918,24 @@ func (x *Exec) oldRefFacts(t *smt.Term, typ types.Type) {
 	case *types.Interface:
 		x.axiom(x.b.Cmp("<", x.b.App("i_ref", "Int", t), a0))
 	}
+}
+
+// oldRefFactsDeep applies oldRefFacts to the reference-typed components of a
+// (struct) value read from memory that existed at entry.
+func (x *Exec) oldRefFactsDeep(t *smt.Term, typ types.Type, depth int) {
+	if depth > 3 || t.Bound {
+		return
+	}
+	if st, ok := typ.Underlying().(*types.Struct); ok {
+		if _, isTP := typ.(*types.TypeParam); isTP {
+			return
+		}
+		for i := 0; i < st.NumFields(); i++ {
+			x.oldRefFactsDeep(x.fieldOf(t, typ, i), st.Field(i).Type(), depth+1)
+		}
+		return
+	}
+	x.oldRefFacts(t, typ)
 }
 
 func isNilSSA(v ssa.Value) bool {
